@@ -284,7 +284,7 @@ bool Session::process(const f8String& from)
 	try
 	{
 		const f8String::size_type fpos(from.find("\00134=")); // anchored at a field boundary
-		if (fpos == f8String::npos)
+		if (fpos == f8String::npos || from.find(default_field_separator, fpos + 4) == f8String::npos) // value must be terminated
 		{
 			slout_debug << "Session::process throwing for " << from;
 			throw InvalidMessage(from, FILE_LINE);
